@@ -4,5 +4,6 @@
 //@include mb2_core.rs
 //@include mb2_dstlen.rs
 //@include boxed_spec.rs
+//@include walk_lemma.rs
 //@include mb2_builder.rs
 fn main() {}
